@@ -3,19 +3,22 @@
 Reads CONFIRM lines (tools/seeded_confirm.sh) and SEEDED lines (tools/seeded_run.sh) from the log files given as arguments."""
 import json, os, re, shutil, sys
 
+PFX = os.environ.get("MUTPFX", "mut")
+OFF = int(os.environ.get("MUTOFF", "0"))      # round 2 deliveries 1,2 are stored as <ID>-3, <ID>-4
+
 confirm, seeded = {}, {}
 for f in sys.argv[1:]:
     for l in open(f, errors="replace"):
         m = re.match(r"CONFIRM (C\d\d) (\d) ctest=\[(.*?)\] demo_changed=(\d+) demo_clean=(\d+)", l)
         if m:
-            confirm[(m.group(1), m.group(2))] = dict(ctest=m.group(3), demo_changed=int(m.group(4)), demo_clean=int(m.group(5)))
+            confirm[(m.group(1), str(int(m.group(2)) + OFF))] = dict(ctest=m.group(3), demo_changed=int(m.group(4)), demo_clean=int(m.group(5)))
         m = re.match(r"SEEDED (C\d\d)-(\d) (C\d\d) rc=(\d+) violations=(\d+) ?(.*)", l)
         if m:
             seeded.setdefault((m.group(1), m.group(2)), {})[m.group(3)] = dict(
                 exit=int(m.group(4)), violations=int(m.group(5)),
                 replays=[x.split("replay=")[1] for x in m.group(6).split(";") if "replay=" in x])
 for (pid, n), c in sorted(confirm.items()):
-    src = "/tmp/mut-%s-out/%s" % (pid, n)
+    src = "/tmp/%s-%s-out/%s" % (PFX, pid, int(n) - OFF)
     ok = "0 tests failed out of 10" in c["ctest"] and c["demo_changed"] != 0 and c["demo_clean"] == 0
     if not ok:
         print("NOT KEPT", pid, n, c)
@@ -35,7 +38,7 @@ for (pid, n), c in sorted(confirm.items()):
         why_tests_still_pass=notes.get("why_tests_still_pass"),
         origin="fresh sub-agent given only the property text and a scratch git worktree of /repo",
         confirmed=dict(
-            how="tools/seeded_confirm.sh %s %s in the scratch worktree: git apply patch.diff; cmake --build; ctest -j8 (full suite); "
+            how="tools/seeded_confirm.sh %s %s (delivery number in its round) in the scratch worktree: git apply patch.diff; cmake --build; ctest -j8 (full suite); "
                 "build.sh <changed tree>; git checkout; build.sh <clean tree>" % (pid, n),
             ctest=c["ctest"], demo_exit_on_changed_tree=c["demo_changed"], demo_exit_on_clean_tree=c["demo_clean"]),
     ))
